@@ -14,6 +14,7 @@
                 let blocks = s1.block_counter - s0.block_counter;
                 let grown = s1.decoder_scratch.buffer.spec_len() - s0.decoder_scratch.buffer.spec_len();
                 &&& fin == s1.frame_finished
+                &&& final(source).avail() >= 0
                 // exact accounting of source bytes
                 &&& s1.bytes_read_counter - s0.bytes_read_counter == old(source).avail() - final(source).avail()
                 // strictly one block after the other, at least one per call
